@@ -564,7 +564,7 @@ def write_query_markers_to_h5(
             data=json.dumps(reference_gene_names).encode('utf-8'))
 
         for parent_grp in marker_lookup:
-            out_grp = cache_file.create_group(parent_grp)
+            out_grp = cache_file.require_group(parent_grp)
             these_reference = []
             these_query = []
             for gene in marker_lookup[parent_grp]:
